@@ -305,30 +305,28 @@ impl Display for RegExp<'_> {
 fn indent_regexp(regexp: String, config: &RegExpConfig) -> String {
     let mut indented_regexp = vec![];
     let mut nesting_level = 0;
+    let color_replace_regex = Regex::new("\u{1b}\\[(?:\\d+;\\d+|0)m").unwrap();
 
-    for (i, line) in regexp.lines().enumerate() {
+    for (i, colored_line) in regexp.lines().enumerate() {
         if i == 1 && config.is_start_anchor_disabled {
             nesting_level += 1;
         }
-        if line.is_empty() {
+        if colored_line.is_empty() {
             continue;
         }
 
-        let is_colored_line = line.starts_with("\u{1b}[");
+        // Decide on the line without color codes, otherwise escaped
+        // literals such as \( or \$ are mistaken for structural symbols.
+        let line = color_replace_regex.replace_all(colored_line, "");
 
-        if nesting_level > 0
-            && ((is_colored_line && (line.contains('$') || line.contains(')')))
-                || (line == "$" || line.starts_with(')')))
-        {
+        if nesting_level > 0 && (line == "$" || line.starts_with(')')) {
             nesting_level -= 1;
         }
 
         let indentation = "  ".repeat(nesting_level);
-        indented_regexp.push(format!("{indentation}{line}"));
+        indented_regexp.push(format!("{indentation}{colored_line}"));
 
-        if (is_colored_line && (line.contains('^') || (i > 0 && line.contains('('))))
-            || (line == "^" || (i > 0 && line.starts_with('(')))
-        {
+        if line == "^" || (i > 0 && line.starts_with('(')) {
             nesting_level += 1;
         }
     }
